@@ -296,7 +296,7 @@ SPECS = [
          rx=r"static size_t available_space\(PE\* pe, void\* pointer\)\s*\{.*?return 0;.*?return 0;\s*return (pe->data \+ pe->data_size - \(uint8_t\*\) pointer);",
          args=["data", "data_size", "pointer"], atoms=PE_ATOMS),
     dict(name="pe_rich_nthdr_reject", reject=True, file="libyara/modules/pe/pe.c",
-         rx=r"if \((nthdr_offset > pe->data_size \+ sizeof\(uint32_t\) \|\| nthdr_offset < 4)\)\s*return;", args=["data_size", "nthdr_offset"],
+         rx=r"if \((nthdr_offset > pe->data_size[^;{}]*?\|\| nthdr_offset < 4)\)\s*return;", args=["data_size", "nthdr_offset"],
          atoms={"nthdr_offset": ("nthdr_offset", "u32"), "pe->data_size": ("data_size", "int"), "sizeof(uint32_t)": 4}),
     dict(name="pe_exports_table_outside", reject=True, file="libyara/modules/pe/pe.c",
          rx=r"if \((number_of_exports \* sizeof\(DWORD\) > pe->data_size - offset)\)\s*return;", args=["data_size", "offset", "number_of_exports"],
